@@ -480,3 +480,106 @@ def replay_h_timestamp_text(ns):
         return False, "timestamp keys preserved"
     finally:
         shutil.rmtree(d, ignore_errors=True)
+
+
+# ----------------------------------------------------- text labels that look like something else ---
+SPECIAL = ["50%25", "a%20b", "%7E", "1e3", "0x1F", "1_0", " 1", "01", "+1", "nan", "None", "True", "now", "1.0", "-0",
+           "2020-01-01", "1 days", "a b", "x.y", "é"]
+
+
+def h_hive_special_text(i: int) -> bool:
+    """
+    pre: 0 <= i < 20
+    post: __return__
+    """
+    # a text partition column (pandas metadata says so) whose label looks like an escape sequence, a number in some
+    # notation, a date, a keyword: it comes back as exactly that text (label chosen from a table by symbolic index)
+    from crosshair import realize
+    a, b = SPECIAL[realize(i)], "zz"
+    saved = util.np
+    util.np = _NPu
+    try:
+        paths, opened, dirs = _written_paths(["k"], [a, b], True)
+        meta = {"k": META["str"]}
+        scheme, cats = api.paths_to_cats(paths, meta)
+        if scheme != "hive" or sorted(cats) != ["k"] or sorted(cats["k"]) != sorted([a, b]) or len(set(paths)) != 2:
+            return False
+        return _read_back(paths[0], cats, "k", scheme, meta) == a and _read_back(paths[1], cats, "k", scheme, meta) == b
+    finally:
+        util.np = saved
+
+
+def replay_h_hive_special_text(i):
+    return _replay_keys([SPECIAL[i], "zz"], "hive")
+
+
+# ------------------------------------- the directory text of a key is the text append='overwrite' matches on ---
+def _key_table():
+    import numpy as np
+    import pandas as pd
+    return [("float64", 2.0), ("float64", 1.5), ("float64", -0.0), ("float64", 1e20), ("float64", 1e-7),
+            ("int64", 3), ("int64", -12), ("bool", True), ("object", "x"), ("object", "2.0"),
+            ("datetime64[ns]", pd.Timestamp("2020-01-01")), ("datetime64[ns]", pd.Timestamp("2020-01-02 03:04:05")),
+            ("datetime64[ns]", pd.Timestamp("2020-01-02 03:04:05.000006"))]
+
+
+def _overwrite_expr():
+    """the expression writer.overwrite uses for the partition text of the new frame's rows, taken from its source:
+    partition_values_in_new = pd.unique(<expr>)"""
+    import ast, inspect, textwrap
+    tree = ast.parse(textwrap.dedent(inspect.getsource(writer.overwrite)))
+    for node in ast.walk(tree):
+        if isinstance(node, ast.Assign) and ast.unparse(node.targets[0]) == "partition_values_in_new":
+            call = node.value
+            if isinstance(call, ast.Call) and ast.unparse(call.func) == "pd.unique" and len(call.args) == 1:
+                return compile(ast.Expression(call.args[0]), "<writer.overwrite: partition text of the new rows>", "eval")
+    raise RuntimeError("writer.overwrite: `partition_values_in_new = pd.unique(...)` not found")
+
+
+def _overwrite_text(dtype, v):
+    import pandas as pd
+    data = pd.DataFrame({"k": pd.Series([v], dtype=dtype), "v": [0]})
+    ns = dict(writer.__dict__)
+    ns.update(data=data, defined_partitions=["k"])
+    return list(eval(_OVERWRITE_EXPR, ns))[0]
+
+
+_OVERWRITE_EXPR = _overwrite_expr()
+# evaluated once at import (pandas, concrete values): (dtype, key, text the overwrite step compares)
+KEY_TEXT = [(dt, v, _overwrite_text(dt, v)) for dt, v in _key_table()]
+
+
+def h_overwrite_key_text(i: int) -> bool:
+    """
+    pre: 0 <= i < 13
+    post: __return__
+    """
+    # append='overwrite' finds the partitions to replace by comparing directory text; the directory of a key is named
+    # by util.path_string - both must give the same text for every kind of key (float, int, bool, text, timestamp)
+    from crosshair import realize
+    dtype, v, text = KEY_TEXT[realize(i)]
+    return util.path_string(v) == text
+
+
+def replay_h_overwrite_key_text(i):
+    import shutil, tempfile
+    import pandas as pd
+    import fastparquet
+    dtype, v = _key_table()[i]
+    other = {"float64": 7.25, "int64": 99, "bool": False, "object": "other",
+             "datetime64[ns]": pd.Timestamp("1999-12-31")}[dtype]
+    d = tempfile.mkdtemp(prefix="c09-")
+    try:
+        dn = os.path.join(d, "ds")
+        old = pd.DataFrame({"k": pd.Series([v, other], dtype=dtype), "v": [1, 2]})
+        fastparquet.write(dn, old, file_scheme="hive", partition_on=["k"])
+        new = pd.DataFrame({"k": pd.Series([v], dtype=dtype), "v": [100]})
+        fastparquet.write(dn, new, file_scheme="hive", partition_on=["k"], append="overwrite")
+        out = fastparquet.ParquetFile(dn).to_pandas()
+        got = sorted(int(x) for x in out["v"])
+        if got != [2, 100]:
+            return True, "append='overwrite' of the partition k=%r (%s) leaves rows v=%r, expected [2, 100]" % (
+                v, dtype, got)
+        return False, "partition replaced"
+    finally:
+        shutil.rmtree(d, ignore_errors=True)
